@@ -15,6 +15,7 @@ type Options struct {
 	Deadline    time.Time              // zero = none
 	LowPriority func(name string) bool // goroutines (by spawn-site name) that are only scheduled when nothing else is enabled
 	NoCache     bool                   // disable the state cache (for cross-checking the reduction)
+	NoSleep     bool                   // disable the sleep sets (for cross-checking the reduction)
 	Prefix      []Choice               // explore only the subtree below this choice prefix (parallel workers)
 	Record      bool                   // keep traces for every execution (slow; replay / samples)
 }
@@ -48,6 +49,7 @@ type Stats struct {
 	Executions    int64 // complete executions (any outcome except pruned)
 	Pruned        int64 // executions cut by the state cache (every option of a decision point already covered)
 	Skipped       int64 // options dropped by the state cache without being executed
+	SleepSkipped  int64 // options not offered because they were asleep (sleep sets)
 	CacheStates   int64
 	MaxSteps      int
 	MaxGoroutines int
@@ -59,9 +61,19 @@ type Stats struct {
 	Broken        string
 }
 
+type option struct {
+	c        Choice
+	cost     int8
+	key      [2]uint64 // predicted state key after the operation
+	gid      uint64    // canonical id of the goroutine
+	fp       footprint // footprint of the option's first run (recorded while its subtree is explored)
+	explored bool      // its subtree has been entered
+}
+
 type node struct {
-	opts []option
-	idx  int
+	opts    []option
+	idx     int
+	started bool // the option at idx has been entered
 }
 
 type cacheKey struct {
@@ -69,16 +81,22 @@ type cacheKey struct {
 	prev uint64
 }
 
+type cacheVal struct {
+	left  int8
+	sleep []uint64 // sorted hashes of the sleep set the state was expanded with
+}
+
 type controller struct {
-	opts   Options
-	stack  []node
-	depth  int // exploring-phase decision depth in the current execution
-	used   int // preemptions used in the current execution
-	cache  map[cacheKey]int8
-	fixed  []Choice // replay mode: follow exactly this list, then first option
-	replay bool
-	optbuf []option
-	skipped int64 // options dropped by the state cache without being executed
+	opts         Options
+	stack        []node
+	depth        int // exploring-phase decision depth in the current execution
+	used         int // preemptions used in the current execution
+	cache        map[cacheKey]cacheVal
+	fixed        []Choice // replay mode: follow exactly this list, then first option
+	replay       bool
+	optbuf       []option
+	skipped      int64 // options dropped by the state cache without being executed
+	sleepSkipped int64 // options not offered because they were asleep
 }
 
 func (c *controller) pick(w *World, prev *G) (*G, int32) {
@@ -111,60 +129,124 @@ func (c *controller) pick(w *World, prev *G) (*G, int32) {
 		c.account(w, prev, g)
 		return g, ch.Alt
 	}
-	if d < len(c.stack) {
-		n := &c.stack[d]
-		o := n.opts[n.idx]
-		g, ok := c.validate(w, o.c)
-		if !ok {
-			w.Break("prefix replay diverged at decision %d (nondeterministic harness or code under test)", d)
-			w.end(Diverged)
+	if d == len(c.stack) {
+		// a new decision point
+		remaining := c.opts.Bound - c.used
+		opts := c.options(w, prev, remaining)
+		if len(opts) == 0 {
 			return nil, 0
 		}
-		c.used += int(o.cost)
-		w.preempts += int(o.cost)
-		c.depth++
-		w.choices = append(w.choices, o.c)
-		return g, o.c.Alt
-	}
-	remaining := c.opts.Bound - c.used
-	opts := c.options(w, prev, remaining)
-	if len(opts) == 0 {
-		return nil, 0
-	}
-	if !c.opts.NoCache {
-		// State cache on predicted successor states: the state reached by an option is identified by the
-		// causal-history key right after the chosen operation (computed without executing it) plus the
-		// goroutine that will be running (continuing it is free at the next decision).  An option whose
-		// successor was already expanded with at least the same remaining budget is dropped.
+		n := node{opts: append([]option(nil), opts...)}
 		var e effect
-		k := 0
-		for _, o := range opts {
+		for i := range n.opts {
+			o := &n.opts[i]
 			g := w.gs[o.c.G]
+			o.gid = g.id
 			w.effectOf(g, o.c.Alt, &e)
-			ck := cacheKey{k: w.keyAfter(g, &e), prev: g.id}
-			left := int8(remaining - int(o.cost))
-			if r, ok := c.cache[ck]; ok && r >= left {
-				c.skipped++
+			o.key = w.keyAfter(g, &e)
+		}
+		c.stack = append(c.stack, n)
+	}
+	n := &c.stack[d]
+	deepest := d == len(c.stack)-1
+	if deepest && !n.started {
+		// choose the next option of this decision point that is neither asleep nor covered by the state cache
+		remaining := c.opts.Bound - c.used
+		for ; n.idx < len(n.opts); n.idx++ {
+			o := &n.opts[n.idx]
+			g, ok := c.validate(w, o.c)
+			if !ok {
+				w.Break("prefix replay diverged at decision %d (nondeterministic harness or code under test)", d)
+				w.end(Diverged)
+				return nil, 0
+			}
+			if !c.opts.NoSleep && asleep(w.sleep, o) {
+				c.sleepSkipped++
 				continue
 			}
-			c.cache[ck] = left
-			opts[k] = o
-			k++
+			var e effect
+			w.effectOf(g, o.c.Alt, &e)
+			succ := c.successorSleep(w, n, n.idx, g, &e)
+			if !c.opts.NoCache {
+				// State cache on predicted successor states: the state reached by an option is identified by
+				// the causal-history key right after the chosen operation (computed without executing it) plus
+				// the goroutine that will be running (continuing it is free at the next decision).  An option
+				// whose successor was already expanded with at least the same remaining budget and with a
+				// sleep set contained in the present one is dropped.
+				ck := cacheKey{k: o.key, prev: g.id}
+				left := int8(remaining - int(o.cost))
+				sh := sleepHashes(succ)
+				if v, ok := c.cache[ck]; ok && v.left >= left && subset(v.sleep, sh) {
+					c.skipped++
+					continue
+				}
+				c.cache[ck] = cacheVal{left: left, sleep: sh}
+			}
+			break
 		}
-		opts = opts[:k]
-		if len(opts) == 0 {
+		if n.idx >= len(n.opts) {
 			w.end(Pruned)
 			return nil, 0
 		}
+		n.started = true
+		n.opts[n.idx].explored = true
+		if len(n.opts) > 1 && n.opts[n.idx].fp == nil {
+			n.opts[n.idx].fp = footprint{}
+		}
 	}
-	n := node{opts: append([]option(nil), opts...)}
-	c.stack = append(c.stack, n)
-	o := n.opts[0]
+	o := &n.opts[n.idx]
+	g, ok := c.validate(w, o.c)
+	if !ok {
+		w.Break("prefix replay diverged at decision %d (nondeterministic harness or code under test)", d)
+		w.end(Diverged)
+		return nil, 0
+	}
+	if !c.opts.NoSleep {
+		var e effect
+		w.effectOf(g, o.c.Alt, &e)
+		w.sleep = c.successorSleep(w, n, n.idx, g, &e)
+		if o.fp != nil {
+			// record the footprint of this option's first run (every execution through it contributes)
+			addPending(o.fp, g)
+			w.recs = append(w.recs, recTarget{g: g, fp: o.fp})
+		}
+	}
 	c.used += int(o.cost)
 	w.preempts += int(o.cost)
 	c.depth++
 	w.choices = append(w.choices, o.c)
-	return w.gs[o.c.G], o.c.Alt
+	return g, o.c.Alt
+}
+
+func asleep(sleep []sleepEntry, o *option) bool {
+	for i := range sleep {
+		if sleep[i].gid == o.gid && sleep[i].alt == o.c.Alt {
+			return true
+		}
+	}
+	return false
+}
+
+// successorSleep is the sleep set after taking option i of node n: the current sleep set plus the earlier
+// explored siblings, minus everything woken by the operation.
+func (c *controller) successorSleep(w *World, n *node, i int, g *G, e *effect) []sleepEntry {
+	if c.opts.NoSleep {
+		return nil
+	}
+	cur := w.sleep
+	added := false
+	for j := 0; j < i; j++ {
+		s := &n.opts[j]
+		if !s.explored || s.fp == nil || s.gid == g.id {
+			continue
+		}
+		if !added {
+			cur = append([]sleepEntry(nil), cur...)
+			added = true
+		}
+		cur = append(cur, sleepEntry{gid: s.gid, alt: s.c.Alt, fp: s.fp.items()})
+	}
+	return wake(cur, g, e)
 }
 
 func (c *controller) account(w *World, prev, g *G) {
@@ -346,23 +428,11 @@ func (p *pend) blockedOn() string {
 	}
 }
 
-func (c *controller) backtrack() bool {
-	for len(c.stack) > 0 {
-		top := &c.stack[len(c.stack)-1]
-		top.idx++
-		if top.idx < len(top.opts) {
-			return true
-		}
-		c.stack = c.stack[:len(c.stack)-1]
-	}
-	return false
-}
-
 // Explore runs body under every schedule with at most opts.Bound preemptions (depth-first, stateless:
 // body is re-executed from scratch for each schedule) and calls onExec after each complete execution.
 // onExec returning false stops the exploration.
 func Explore(body func(), opts Options, onExec func(*Execution) bool) Stats {
-	c := &controller{opts: opts, cache: map[cacheKey]int8{}}
+	c := &controller{opts: opts, cache: map[cacheKey]cacheVal{}}
 	st := Stats{Bound: opts.Bound}
 	if len(opts.Prefix) > 0 {
 		// pin the prefix: single-option nodes
@@ -406,6 +476,7 @@ func Explore(body func(), opts Options, onExec func(*Execution) bool) Stats {
 		for len(c.stack) > pinned {
 			top := &c.stack[len(c.stack)-1]
 			top.idx++
+			top.started = false
 			if top.idx < len(top.opts) {
 				ok = true
 				break
@@ -427,6 +498,7 @@ func Explore(body func(), opts Options, onExec func(*Execution) bool) Stats {
 	}
 	st.CacheStates = int64(len(c.cache))
 	st.Skipped = c.skipped
+	st.SleepSkipped = c.sleepSkipped
 	runtime.GC()
 	return st
 }
